@@ -61,13 +61,15 @@ CLAIMED = {
     "C05": ("model_checking",
             "TLA+ I-spec of one command exchange (ZvtSequence: step function over a PT script) model-checked for all 18 commands x all scripts "
             "to depth 3 (quick) / 5 (thorough) with P_C05 as invariants; every model behaviour replayed against the real into_stream through a "
-            "scripted peer and compared event by event; random 40-frame exchanges and a control-field / NACK-code sweep per command validated by TLC (TraceSequence)",
+            "scripted peer and compared event by event; random 40-frame exchanges and a control-field / NACK-code sweep per command validated by TLC (TraceSequence); "
+            "the shipped zvt_cli specified (ZvtCli, MC_ZvtCli) and run per subcommand as a process against a scripted terminal over loopback TCP, "
+            "its writes taken at the system call and judged by TLC (TraceCli)",
             "Bounded-exhaustive over reply scripts (every order, repetition, final position, frames queued behind the final packet), the code is "
             "bound in both directions; the P-spec is evaluated on the observed log only when the I-spec rejects it.",
             "DESIGN.md 8 (C05), 6", TB),
     "C06": ("model_checking",
             "same I-spec and runs as C05 with the fault alphabet (NACK, foreign control field, malformed body, truncated frame, EOF) at every "
-            "position, P_C06 (one error, then silence, no answer for the failing frame) as invariants and as trace predicates; every 80 xx / 84 xx control field in place of the acknowledgement and every NACK code in place of the first reply, per command",
+            "position, P_C06 (one error, then silence, no answer for the failing frame) as invariants and as trace predicates; every 80 xx / 84 xx control field in place of the acknowledgement and every NACK code in place of the first reply, per command; zvt_cli over loopback TCP as in C05 (TraceCli)",
             "Every fault kind at every position of every script up to the depth bound, plus frames the PT might still send afterwards.",
             "DESIGN.md 8 (C06), 6", TB),
     "C07": ("model_checking",
